@@ -106,6 +106,14 @@ var c11msgs = func() []string {
 	return out
 }()
 
+func c11big(g *zsim.Stream) int {
+	base := []int{1 << 16, 1 << 31, 1 << 32, 3 << 32, 5 << 33, 1 << 62, 1<<63 - 1}[g.Draw(7)]
+	if base == 1<<63-1 {
+		return base - g.Draw(3)
+	}
+	return base + g.Draw(5) - 1
+}
+
 func c11admit(n, first, thereafter uint64) bool {
 	if n <= first {
 		return true
@@ -122,6 +130,14 @@ func runC11(c *Ctx) {
 	w := &c11world{c: c}
 	N := pick(g, 0, 1, 2, 3, 5, 100)
 	M := pick(g, 0, 1, 2, 3, 5, 100)
+	// "for all N, M >= 0": now and then a value around the 16/31/32/63-bit
+	// boundaries, where narrowed arithmetic would go wrong
+	if g.Chance(8) {
+		M = c11big(g)
+	}
+	if g.Chance(16) {
+		N = c11big(g)
+	}
 	tick := []time.Duration{0, 1, time.Millisecond, time.Second, 90 * time.Minute}[g.Weighted(1, 1, 2, 5, 1)]
 	enabSet := g.Draw(4)
 	w.enabled = func(l zapcore.Level) bool {
